@@ -517,7 +517,18 @@ func (x *Explorer) define(in ssa.Instruction, st *State) {
 				return
 			}
 		}
-		set(x.key(i.Tuple, st) + "#" + itoa(i.Index))
+		k := x.key(i.Tuple, st) + "#" + itoa(i.Index)
+		set(k)
+		// an assumption stated about this result by its register name
+		// ("(t2#1==nil) is false") also holds for the structural key the
+		// result of a pure call is known by
+		if reg := x.rn(i.Tuple) + "#" + itoa(i.Index); k != reg && len(st.pin) > 0 && len(k) <= maxKeyLen {
+			for pk, pv := range st.pin {
+				if mentions(pk, reg) {
+					st.Facts[replaceTok(pk, reg, k)] = pv
+				}
+			}
+		}
 	case *ssa.Call:
 		name := x.P.CalleeName(i)
 		cc := i.Common()
@@ -1221,6 +1232,29 @@ func (x *Explorer) Run() []Hit {
 					}
 					for r, o := range origin {
 						ns.phiSrc[r] = o
+					}
+					// an assumption about the result of the helper call itself
+					// ("isNotFound(err) says no"): paths on which the helper
+					// found otherwise are not the ones asked about
+					if cv := fr.call.Value(); cv != nil && len(x.valPin) > 0 {
+						if want, pinned := x.valPin[x.rn(cv)]; pinned {
+							k := x.key(cv, ns)
+							if got, known := truthOfKey(k, ns); known && got != want {
+								break
+							}
+							if got, known := ns.fact("r:" + x.rn(cv)); known && got != want {
+								break
+							}
+							ns.Facts["r:"+x.rn(cv)] = want
+							neg := false
+							for strings.HasPrefix(k, "!") {
+								neg = !neg
+								k = k[1:]
+							}
+							if len(k) <= maxKeyLen {
+								ns.Facts[k] = want != neg
+							}
+						}
 					}
 					work = append(work, workItem{block: fr.ret, start: fr.idx, st: ns, trace: it.trace, frames: it.frames[:len(it.frames)-1]})
 				}
